@@ -27,6 +27,12 @@ def run_S(report, E, fnames, prefix=spec_bdd.B, closure=True):
         full = work.pop(0)
         if full in results or full in report.s_done: continue
         report.s_done.add(full)
+        if E.thir(full) is None:
+            import facts as _facts
+            if _facts.baseline_private(full):
+                # a private helper of the pinned tree that no longer exists (merged into its callers): nothing to prove about it;
+                # its callers are proved against their own specifications with whatever they call now
+                report.count('private-helpers-gone'); continue
         try:
             res = E.explore(full)
         except Undecidable as u:
